@@ -1,4 +1,5 @@
 import Confuse.Model.Api
+import Confuse.Model.Ledger
 /-!
 # Line-protocol driver for the model (see DESIGN.md appendix A)
 
@@ -333,6 +334,11 @@ def step (w : World) (ws : List String) : World × List String :=
   | ["F", c] => withCtx c fun ci x =>
       let ev := apiFree x.cfg
       (setCtx { w with k := w.k + ev.length } ci none, ["R 0"] ++ ev.map showCall)
+  | ["LIVE"] =>
+      let total := w.ctxs.foldl (fun acc x => match x with
+        | some c => acc + footCfg c.cfg + searchPathBlocks c.dirs
+        | none => acc) 0
+      (w, [s!"L {total}"])
   | ["TE", n] => (w, ["S " ++ hexOfBytes (tildeExpand (mkPEnv w []) (bytesOfHex n))])
   | ["SQ", c, f] => withCtx c fun _ x =>
       (w, ["S " ++ (if x.dirs.isEmpty then "-" else hexOpt (searchpath (mkPEnv w x.dirs) x.dirs (bytesOfHex f)))])
